@@ -1015,6 +1015,14 @@ func (ex *Exec) fmtValue(verb byte, a value) *Str {
 		if (verb == 'v' || verb == 's') && !hasStringer(ex, it.t) {
 			return v
 		}
+		if verb == 'q' && !hasStringer(ex, it.t) && !v.opaque {
+			if sp := ex.P.SSAPkgs["strconv"]; sp != nil && sp.Func("Quote") != nil {
+				if r, ok := ex.callFn(nil, token.NoPos, sp.Func("Quote"), []value{v}).(*Str); ok {
+					return r
+				}
+			}
+			return nil
+		}
 		// named string types with a String/Error method are formatted through it (below)
 	case *smt.Term:
 		if _, isInt := isInteger(it.t); isInt && (verb == 'v' || verb == 'd') {
@@ -1022,6 +1030,20 @@ func (ex *Exec) fmtValue(verb byte, a value) *Str {
 				return nil
 			}
 			return ex.itoa(v)
+		}
+		if bt, isInt := isInteger(it.t); isInt && (verb == 'x' || verb == 'o' || verb == 'b') && !hasStringer(ex, it.t) {
+			// the digits in another base: strconv's own conversion, run from source (fmt prints a sign and the magnitude too)
+			base := map[byte]int64{'x': 16, 'o': 8, 'b': 2}[verb]
+			name := "FormatInt"
+			if bt.Info()&types.IsUnsigned != 0 {
+				name = "FormatUint"
+			}
+			if sp := ex.P.SSAPkgs["strconv"]; sp != nil && sp.Func(name) != nil {
+				if r, ok := ex.callFn(nil, token.NoPos, sp.Func(name), []value{v, ex.b.I64(base)}).(*Str); ok {
+					return r
+				}
+			}
+			return nil
 		}
 		if isBool(it.t) && verb == 'v' {
 			if cb, ok := v.ConstBool(); ok {
@@ -1110,7 +1132,24 @@ func init() {
 	reg("(*strings.Builder).Len", func(ex *Exec, fr *frame, pos token.Pos, args []value) value {
 		return ex.b.I64(int64(len(ex.builderOf(args[0]).b)))
 	})
-	reg("(*strings.Builder).Grow", func(ex *Exec, fr *frame, pos token.Pos, args []value) value { return nil })
+	reg("(*strings.Builder).Grow", func(ex *Exec, fr *frame, pos token.Pos, args []value) value {
+		ex.builderOf(args[0]).grown = true
+		return nil
+	})
+	// Cap: zero exactly for a builder that was never grown or written (what strings.Map asks); otherwise at least Len
+	reg("(*strings.Builder).Cap", func(ex *Exec, fr *frame, pos token.Pos, args []value) value {
+		bl := ex.builderOf(args[0])
+		n := len(bl.b)
+		if n == 0 && bl.grown {
+			n = 8
+		}
+		return ex.b.I64(int64(n))
+	})
+	reg("strings.Compare", func(ex *Exec, fr *frame, pos token.Pos, args []value) value {
+		x, y := args[0].(*Str), args[1].(*Str)
+		ex.needBytes(x, y)
+		return ex.b.Ite(ex.strLess(x, y, false), ex.b.I64(-1), ex.b.Ite(ex.strLess(y, x, false), ex.b.I64(1), ex.b.I64(0)))
+	})
 	reg("(*strings.Builder).Reset", func(ex *Exec, fr *frame, pos token.Pos, args []value) value {
 		ex.builderOf(args[0]).b = nil
 		return nil
